@@ -131,6 +131,9 @@ def ceilings(ctx, f):
         mods = [m for m in ast.walk(e) if isinstance(m, ast.BinOp) and isinstance(m.op, ast.Mod)]
         if not mods:
             continue
+        from ..groupcount import _arith
+        if not (_arith(e) and _arith(other[0].value)):
+            continue   # bytes / arrays chosen by a version test etc.: not a unit count
         n += 1
         remtxt = U(mods[0])
 
